@@ -17,6 +17,7 @@ func init() {
 		Explain: "(a) precedence: every call on the registry.Repository value (in notation.Verify and in the listing callback) is cut by verifier != nil, repo != nil, MaxSignatureAttempts > 0 and, when the verifier implements the skipper, by skip == false; the skip exit precedes any repository call; " +
 			"(b) reference gates: parse error, empty reference, resolve error and (for digest references) digest != resolved digest are fail-closed; listing and verification use the descriptor Resolve returned; " +
 			"(c) bound: the attempt counter is a cell of the outer function (a captured local, or a field of the state object handed to the function the callback forwards to) that starts at 0 and is written in the callback only by one +1 store — or starts at the caller's limit and is written only by one -1 store; every FetchSignatureBlob and Verifier.Verify call is cut by counter < MaxSignatureAttempts of the caller's options (counting down: counter != 0) and preceded by that store in the same iteration; " +
+			"instead of the per-iteration test the loop may be bounded by construction: its j-th iteration is passed on only under j-1 < min(len(page), attempts left), where attempts left = limit - counter (counting down: counter) is read in the page worker before the loop, which is entered once per page — the page cut to that length (if/else, min, clipping helper) and ranged over, an index loop up to that minimum, or the position in the page tested against the attempts left; " +
 			"(d) early exit: from Verifier.Verify err == nil no further fetch/verify call, no loop continuation and no nil return of the callback is reachable; the outcome list stored is exactly that call's outcome; the success flag is set only there; " +
 			"the outer success exit requires the flag (or, without a flag, a non-nil outcome list that only that store can make non-nil), a non-zero counter and returns the resolved descriptor with those outcomes; (e) a fetch error and a nil outcome leave the callback only through failing exits. " +
 			"Gates and repository calls that live in unexported helpers of the outer function are decided there and composed at the call site (cut sets followed into helpers). " +
@@ -412,7 +413,7 @@ func runC10(c *Ctx) {
 			}
 			// "per signature": the call is made inside a loop of the page worker (which loop: decided below)
 			looped := false
-			for _, l := range allLoops(x.CB) {
+			for _, l := range x.loops(x.CB) {
 				if loopBlocks(l.Header)[call.Block().Index] {
 					looped = true
 				}
@@ -493,7 +494,7 @@ func runC10(c *Ctx) {
 		iterSite = x.hc
 	}
 	var loop *loopRef
-	for _, l := range allLoops(CB) {
+	for _, l := range x.loops(CB) {
 		l := l
 		lb := loopBlocks(l.Header)
 		if lb[iterSite.Block().Index] && (loop == nil || len(lb) < len(loopBlocks(loop.Header))) {
@@ -611,6 +612,20 @@ func runC10(c *Ctx) {
 		}
 		return false, false
 	}
+	// Alternative to the per-iteration test (extra_c10.go, "the iteration budget"): the number of iterations itself is
+	// bounded — the loop passes its j-th iteration on only under j-1 < n, where n == min(len(page), attempts left) is fixed
+	// before the loop from the counter as it stands when the page arrives. Then the j-th iteration runs exactly when
+	// counter-on-entry + j - 1 < limit: the same condition, evaluated on values that cannot change in between.
+	bud := x.iterBudget(loop, inLoop, counter, down, inc)
+	budGated := func(in ssa.Instruction) bool { return bud.gated(x.headEdges(loop, in)) }
+	// A loop the engine does not know as a loop over a slice (recognised by its induction variable only: `for i := 0; i < n;
+	// i++ { … page[i] … }`) visits the listed manifests in order and completely only if its bound is the length of the page
+	// (or the budgeted minimum): that is what a range over the page gives for free and what the per-iteration test relies on.
+	extOK := true
+	if x.extLoop[loop.Header] {
+		k := bud.headerBoundKind()
+		extOK = k == c10kLen || k == c10kMin
+	}
 	for _, call := range []*ssa.Call{fetch, verify} {
 		edges := x.iterEdges(loop.Body, call)
 		name := strings.TrimPrefix(calleeName(call), "invoke:")
@@ -624,8 +639,9 @@ func runC10(c *Ctx) {
 			}
 		}
 		c.Evals++
-		c.Check(okG && okL, "bound/guard/"+name, "effect-site gate (per iteration): the call is reachable only through counter < MaxSignatureAttempts of the caller's options (counting down: counter != 0), tested in the same iteration", w.InstrPos(call),
-			fmt.Sprintf("guard present=%v limit is the caller's MaxSignatureAttempts=%v; per-iteration guards: {%s}", okG, okL, strings.Join(seen, "; ")))
+		okB := !(okG && okL && extOK) && budGated(call)
+		c.Check((okG && okL && extOK) || okB, "bound/guard/"+name, "effect-site gate (per iteration): the call is reachable only through counter < MaxSignatureAttempts of the caller's options (counting down: counter != 0), tested in the same iteration — or only in an iteration j with j-1 < min(len(page), attempts left on entry), that bound fixed before the loop", w.InstrPos(call),
+			fmt.Sprintf("guard present=%v limit is the caller's MaxSignatureAttempts=%v; per-iteration guards: {%s}; loop bound is the page length=%v; iteration budget: no (%s)", okG, okL, strings.Join(seen, "; "), extOK, bud.whyNot()))
 		// preceded by the counting store in the same iteration (store and call in the loop body or in the worker)
 		okInc := x.precedesInIter(loop.Body, inc, call)
 		c.Check(okInc, "bound/counted/"+name, "every attempt is counted: the counting store precedes the call on every path of the iteration", w.InstrPos(call), "an attempt can be made without being counted")
@@ -638,6 +654,8 @@ func runC10(c *Ctx) {
 				found = true
 			}
 		}
+		// (iteration budget: the counting store lies behind the gate of its iteration, and the budget was read before the loop)
+		found = found || budGated(inc)
 		c.Check(found, "bound/guard-before-count", "the limit is tested before the attempt is counted (at most N attempts, not N-1 or N+1)", w.InstrPos(inc), "the counter is changed before/without the limit test")
 	}
 
